@@ -180,8 +180,11 @@ def _mutation_wrapper(
     @wraps(method)
     def wrapped(*args, **kwargs):
         with MutationContext(module, method, attribute):
-            # This handles the case of an `EvolvableWrapper`
-            if attribute not in module.mutation_methods:
+            # Disabled mutations are no-ops, unless the module is wrapped by an
+            # `EvolvableWrapper`, whose mutation methods delegate to these
+            if attribute not in module.mutation_methods and not getattr(
+                module, "_mutations_delegated", False
+            ):
                 module.last_mutation_attr = None
                 module.last_mutation = None
                 return
@@ -701,8 +704,9 @@ class EvolvableWrapper(EvolvableModule):
         self._init_wrapped_methods(module, MutationType.NODE)
 
         # Disable mutations in the wrapped module since these are
-        # now handled by the wrapper
+        # now handled by the wrapper (which delegates to them)
         module.disable_mutations()
+        module._mutations_delegated = True
         self._wrapped = module
 
     @property
